@@ -753,6 +753,11 @@ def crit_one(env, fn, form, ranges, crits, values):
         for j, c in enumerate(crits):
             vars_['tcrit' + AZ[j]] = c
         spellings.append(['tcrit' + AZ[j] for j in range(len(crits))])
+    else:
+        # ... or as a one-cell range holding the text (a criterion kept in a cell, referenced as B1:B1)
+        for j, c in enumerate(crits):
+            vars_['rcrit' + AZ[j]] = [[c]]
+        spellings.append(['rcrit' + AZ[j] for j in range(len(crits))])
     env.note('%s:%s' % (fn, cls))
     if cls.startswith('proper'):
         env.nt()
@@ -784,6 +789,8 @@ def value_families(c):
     fams = [NEG[:n], MIX[:n]]
     if n == 1:
         fams.append([0])        # a single cell holding 0 (falsy) is a value range like any other
+    if n == 3:
+        fams.append([1e16, 1.0, -1e16])     # AVERAGE / SUM of these are 1/3 and 1 (exact summation): so are the conditional forms
     rev = list(reversed(c))
     if rev != list(c) and rev not in fams:
         fams.append(rev)
@@ -885,7 +892,7 @@ class CriteriaText(CritBase):
     def expand(self, env, case):
         t = case[1]
         n = len(t)
-        forms = ('h', 'c', 'w', 'l') if n <= 3 else ('h', 'c')
+        forms = (('s',) if n == 1 else ()) + (('h', 'c', 'w', 'l') if n <= 3 else ('h', 'c'))
         for pat in self.PATTERNS_:
             for form in forms:
                 yield 'COUNTIF', form, [t], [pat], None
